@@ -694,7 +694,10 @@ def monitor_c14(ctx):
             for _ in range(r.randint(1, 12)):
                 k = r.choice(keys)
                 ops.append(r.choice([['push', r.choice([7, 'z'])], ['pop'], ['popi', k], ['read', k], ['write', k, 9], ['len'], ['in', r.choice([1, 'a', 7])],
-                                     ['index_of', r.choice([1, 'a', 7])], ['insert', r.choice([0, 1, -1, 9]), 4], ['read', k], ['read', k]]))
+                                     ['index_of', r.choice([1, 'a', 7])], ['insert', r.choice([0, 1, -1, 9]), 4], ['read', k], ['read', k],
+                                     ['del', k], ['cwrite', k, 3], ['slice2', k, r.choice(keys)], ['slfrom', k], ['slto', k],
+                                     ['step', r.choice([1, 2, 3, -1, -2, -3, 7, D('2.5'), D('-1.5')])], ['step', r.choice([1, 2, 3, -1, -2, -3])],
+                                     ['slmut', r.choice([1, 2, -1])], ['slmut2', k, r.choice(keys)]]))
             pays.append({'kind': 'list', 'init': init, 'ops': ops})
         else:
             init = [[k, i] for i, k in enumerate(r.sample(['a', 'b', '1', '0', 'None', 'True', '1.0'], r.randint(0, 4)))]
@@ -706,7 +709,7 @@ def monitor_c14(ctx):
             pays.append({'kind': 'dict', 'init': init, 'ops': ops})
     return _run('c14', 'c14', pays, 'random operation sequences (one op per eval call on a shared names mapping) against a pure-Python list / '
                 'string-keyed-dict model written from the property text; keys: ints, negative, out-of-range, decimals incl. negative fractions, '
-                'bool, None, str')
+                'bool, None, str; list ops incl. del, compound write, slices c[a:b] / c[a:] / c[:b] / c[::k] and pushes to their results')
 
 
 # ------------------------------------------------------------------ C15
